@@ -322,6 +322,13 @@ class RealSys:
         Worker._process_task_completion, Worker._process_await, Worker._get_desired_result = done, p_await, des
 
     def close(self):
+        for w in self.workers:                     # leaked (never run / never finished) coroutines: close quietly
+            for t in list(w._tasks.values()):
+                try:
+                    if t.coro is not None:
+                        t.coro.close()
+                except Exception:
+                    pass
         (RuntimeTask.step, RuntimeTask.cancel, Worker.cancel, Worker._handle_result,
          Worker._process_task_completion, Worker._process_await, Worker._get_desired_result) = self._orig
 
